@@ -131,6 +131,10 @@ def run(ctx, rep):
             rep.ob('R05.c', fn, '%s.%s recorded' % (variant, field), ok, '%s:%s' % (b_.file, ln),
                    'command.%s := %s(..).%s before journalling' % (field, mut, src) if ok else 'journalled `%s` is `%s`, not the value of the entity returned by System::%s' % (field, form[:80], mut))
 
+    # ------------------------------------------------------------ R05.f replay arithmetic on partitions
+    rep.rule('R05.f', 'replay of DeletePartitions removes at most the existing partitions (the runtime clamps the count and acknowledges the command)', floor=1, analysis='A10')
+    _forms.check_call_args(ctx, rep, 'R05.f', {'server::state::system::SystemState::init': {'Ord::min': ['Option::unwrap_or_else(Iterator::max(…), closure)']}})
+
     # ------------------------------------------------------------ R05.d journal alphabet
     rep.rule('R05.d', 'journal alphabet round-trips: from_bytes(code) builds the variant whose payload type reports that code; replay match has no wildcard', floor=19, analysis='A11')
     fb = ctx.fn_body('<server::state::command::EntryCommand as iggy::bytes_serializable::BytesSerializable>::from_bytes')
